@@ -1416,7 +1416,15 @@ package go9p
 
 // directory snapshot kept in a ufsFid: ends are the running totals of the packed entries
 //@ pure snapok(f) = (forall k int :: 0 <= k && k < len(f.direntends) ==> 0 < f.direntends[k] && f.direntends[k] <= len(f.dirents))
-//@      && (forall k int :: 0 < k && k < len(f.direntends) ==> f.direntends[k-1] < f.direntends[k])
+//@      && (forall k int :: 0 < k && k < len(f.direntends) ==> f.direntends[k-1] + 2 <= f.direntends[k])
+//@      && (len(f.direntends) > 0 ==> f.direntends[0] >= 2)
+//@      && (len(f.direntends) > 0 ==> f.direntends[len(f.direntends)-1] == len(f.dirents))
+//@      && (len(f.direntends) == 0 ==> len(f.dirents) == 0)
+// every entry of the snapshot is one whole stat record: its size field spans exactly to its end
+//@ pure snaprecs(f) = (len(f.direntends) > 0 ==> u16le(f.dirents, 0) + 2 == f.direntends[0])
+//@      && (forall k int :: 0 < k && k < len(f.direntends) ==> u16le(f.dirents, f.direntends[k-1]) + 2 == f.direntends[k] - f.direntends[k-1])
+// x is the start of an entry or the end of the snapshot
+//@ pure entrybound(f, x) = x == 0 || (exists j int :: 0 <= j && j < len(f.direntends) && f.direntends[j] == x)
 
 //@ extern sort.SearchInts(a, x) (r)
 //@   requires forall k int :: 0 < k && k < len(a) ==> a[k-1] <= a[k]
@@ -1434,7 +1442,8 @@ package go9p
 //@ func (*Ufs).Read(ufs, req)
 //@   property C06 C12 C14 C15 C18
 //@   requires ufsreq(req) && req.Conn.Srv.Upool != nil && req.Tc.Count + 24 <= req.Conn.Msize && len(req.Rc.Buf) >= req.Conn.Msize
-//@   requires snapok(ival(req.Fid.Aux, "*ufsFid"))
+//@   requires snapok(ival(req.Fid.Aux, "*ufsFid")) && snaprecs(ival(req.Fid.Aux, "*ufsFid"))
+//@   requires obj(ival(req.Fid.Aux, "*ufsFid").dirents) != obj(req.Rc.Buf)
 //@   at call(os.OpenFile) requires [confined] confined(arg0)
 //@   ghost nreadat int = 0
 //@   ghost nstat int = 0
@@ -1447,6 +1456,10 @@ package go9p
 //@   at call((*os.File).ReadAt) ensures 0 <= ret0 && ret0 <= len(arg1)
 //@   at call((*os.File).Readdir) ensures forall k int :: 0 <= k && k < len(ret0) ==> ret0[k] != nil
 //@   at call(SetRreadCount) requires [count] arg1 <= old(req.Tc.Count)
+//@   at call(SetRreadCount)#2 requires [C15 window] isdir && !deref(Akaros) && entrybound(fid, old(req.Tc.Offset)) ==> entrybound(fid, old(req.Tc.Offset) + arg1)
+//@   at call(SetRreadCount)#2 requires [C15 progress] isdir && !deref(Akaros) && arg1 == 0 ==> old(req.Tc.Offset) >= len(fid.dirents)
+//@   at call(SetRreadCount)#2 requires [C15 data] isdir ==> old(req.Tc.Offset) + arg1 <= len(fid.dirents) && (forall k int :: 0 <= k && k < arg1 ==> rc.Data[k] == fid.dirents[old(req.Tc.Offset) + k])
+//@   at call(SetRreadCount)#2 requires [C15 snapshot] isdir ==> snapok(fid) && snaprecs(fid)
 //@   loop 1
 //@     invariant 0 <= i && i <= len(fid.dirs) && reqwf(req) && nolocks() && fid != nil && rc == req.Rc && rc != nil && tc == req.Tc
 //@     invariant forall k int :: 0 <= k && k < len(fid.dirs) ==> fid.dirs[k] != nil
@@ -1454,6 +1467,8 @@ package go9p
 //@     invariant 0 <= count && count == len(fid.dirents) && confined(fid.path)
 //@     invariant len(fid.direntends) > 0 ==> fid.direntends[len(fid.direntends)-1] == count
 //@     invariant snapok(fid)
+//@     invariant snaprecs(fid)
+//@     invariant obj(fid.dirents) != obj(rc.Buf)
 
 //@ func (*Ufs).FidDestroy(ufs, sfid)
 //@   property C06 C11
